@@ -274,6 +274,10 @@ pub struct Rep {
     pub dead: bool,
     pub caps: (u32, u32),
     pub path: Option<String>,
+    /// heads_log index -> commit metadata, for entries produced by a commit
+    pub commit_infos: BTreeMap<usize, Option<Map<String, Value>>>,
+    /// while in the past: the document and metadata of a later commit that can be redone verbatim
+    pub redo: Option<(Value, Option<Map<String, Value>>)>,
 }
 
 pub struct World {
@@ -404,6 +408,8 @@ impl World {
                 dead: false,
                 caps,
                 path,
+                commit_infos: BTreeMap::new(),
+                redo: None,
             });
         }
         World { reps, prof, r, res, case, revtab: BTreeMap::new(), key_hash: BTreeMap::new(), step: 0 }
@@ -745,6 +751,31 @@ impl World {
             if self.reps[i].dead {
                 continue;
             }
+            if self.reps[i].travelled.is_some() && self.reps[i].redo.is_some() && !self.reps[i].cur.staged() && self.r.chance(60) {
+                // redo, from the past, exactly the edit and commit that an existing child block recorded
+                let (d, inf) = self.reps[i].redo.take().unwrap();
+                self.res.opkinds.push('R');
+                progress(&format!("CALL case={} step={} r{} redo", self.case, s, i));
+                self.res.feat_add("redo_from_past", 1);
+                self.do_update(i, d);
+                if !self.reps[i].dead {
+                    let o = observe(&self.reps[i].m);
+                    self.reps[i].cur = o;
+                    self.do_commit_with(i, Some(inf));
+                }
+                progress(&format!("RET case={} step={}", self.case, s));
+                if !self.reps[i].dead {
+                    let after = observe(&self.reps[i].m);
+                    self.audit(i, &after);
+                    let stems: Vec<String> = self.reps[i].prev_files.keys().filter_map(|k| k.strip_suffix(".delta").map(|s| s.to_string())).collect();
+                    self.res.digests.push(format!("{}:{}:{}", i, after.state_digest(), obs::graph_digest(&self.reps[i].m, &stems)));
+                    self.reps[i].cur = after;
+                }
+                continue;
+            }
+            if self.reps[i].travelled.is_none() {
+                self.reps[i].redo = None;
+            }
             let op = self.pick_op(i);
             self.res.opkinds.push((b'a' + op as u8) as char);
             progress(&format!("CALL case={} step={} r{} {}", self.case, s, i, OP_NAMES[op]));
@@ -862,10 +893,18 @@ impl World {
     }
 
     fn do_commit(&mut self, i: usize) {
+        self.do_commit_with(i, None)
+    }
+
+    fn do_commit_with(&mut self, i: usize, forced_info: Option<Option<Map<String, Value>>>) {
         let before = self.reps[i].cur.clone();
         let keys_before: BTreeSet<String> = store::dump(&self.reps[i].ad).keys().cloned().collect();
         let nw_before = self.reps[i].st.writes.lock().unwrap().len();
-        let info = if self.prof.hostile_info { gen::rand_info(&mut self.r, self.step as u64) } else { Some(json!({"n": self.step}).as_object().unwrap().clone()) };
+        let drawn = if self.prof.hostile_info { gen::rand_info(&mut self.r, self.step as u64) } else { Some(json!({"n": self.step}).as_object().unwrap().clone()) };
+        let info = match forced_info {
+            Some(f) => f,
+            None => drawn,
+        };
         // occasionally the backend refuses one write of this commit (the pack or the block)
         let inject = before.has_staging && self.r.chance(self.prof.fault_pct);
         let which = self.r.below(2);
@@ -944,6 +983,10 @@ impl World {
                 }
                 let new_writes: Vec<store::WriteEvent> = self.reps[i].st.writes.lock().unwrap()[nw_before..].to_vec();
                 let nb: Vec<&store::WriteEvent> = new_writes.iter().filter(|e| e.key.ends_with(".delta") && e.ok).collect();
+                if nb.iter().any(|e| e.existed && e.same_bytes) {
+                    // the commit reproduced, byte for byte, a block that storage already held
+                    self.res.feat_add("commit_reproduced_existing_block", 1);
+                }
                 if nb.len() != 1 {
                     self.res.viol("C13", "commit-wrote-not-one-block", format!("{:?}", nb.iter().map(|e| &e.key).collect::<Vec<_>>()));
                 }
@@ -1031,6 +1074,8 @@ impl World {
                     set_caps(self.reps[i].caps);
                 }
                 self.reps[i].heads_log.push((an.clone(), after.clone()));
+                let idx = self.reps[i].heads_log.len() - 1;
+                self.reps[i].commit_infos.insert(idx, info.clone());
                 self.reps[i].clean = after;
             }
             Outcome::Ok(None) => {
@@ -1301,6 +1346,23 @@ impl World {
                     self.reps[i].clean = st;
                     self.reps[i].last_doc = None;
                     self.res.feat_add("stays_in_past", 1);
+                    // a later commit made directly on top of these heads can be redone verbatim
+                    let mut redo = None;
+                    for (j, inf) in self.reps[i].commit_infos.iter() {
+                        if *j <= k {
+                            continue;
+                        }
+                        let (aj, oj) = &self.reps[i].heads_log[*j];
+                        let child_of_h = aj.iter().all(|a| matches!(self.reps[i].m.get_delta(a), Ok(Some(d)) if d.parents.as_ref() == Some(&h)));
+                        if child_of_h && oj.doc_ok {
+                            if let Ok(mut d) = serde_json::from_str::<Value>(&oj.doc) {
+                                d.as_object_mut().map(|o| o.remove("_id"));
+                                redo = Some((d, inf.clone()));
+                                break;
+                            }
+                        }
+                    }
+                    self.reps[i].redo = redo;
                 }
             }
             Outcome::Err(e) => self.res.viol("C14", "reload_until-returned-error", e),
@@ -1842,6 +1904,8 @@ impl World {
             dead: false,
             caps,
             path: None,
+            commit_infos: BTreeMap::new(),
+            redo: None,
         });
         Some(self.reps.len() - 1)
     }
